@@ -52,6 +52,8 @@ def check(run):
         "when n*p is integral; StdDev compared across runs only",
         "spark is run with at most as many columns as its --cols default (no trimming of old columns)",
         "all counts stay below 2^31 (TLC integers)",
+        "CR LF corpora: the line handed to the matcher is the text before CR LF (scanner contract, C04); the spec "
+        "aggregates the lines without their terminators",
     ]
     # ------------------------------------------------------------------ B3: interleavings
     jobs = []
@@ -120,7 +122,7 @@ def check(run):
         descs = pickd
     dpath = os.path.join(run.scratch, "c03-desc.ndjson")
     big = os.path.join(run.scratch, "c03-big.ndjson")
-    run.drv(["gen", "-out", big, "-n", 11 if quick else 44, "-min", 800 if quick else 2000,
+    run.drv(["gen", "-out", big, "-geom", 3 if quick else 24, "-n", 11 if quick else 44, "-min", 800 if quick else 2000,
              "-max", 5000 if quick else 100000])
     with open(dpath, "w") as f:
         for d in descs:
@@ -129,7 +131,8 @@ def check(run):
     tr = os.path.join(run.scratch, "c03-trace.ndjson")
     res_path = os.path.join(run.scratch, "c03-result.json")
     run.drv(["run", "-rare", rare, "-in", dpath, "-out", tr, "-res", res_path,
-             "-variants", 2 if quick else 4, "-variants-big", 4 if quick else 8, "-par", 6], timeout=3000)
+             "-variants", 2 if quick else 4, "-variants-big", 4 if quick else 8,
+             "-variants-geom", 6 if quick else 10, "-par", 6], timeout=3000)
     res = json.load(open(res_path))
     run.cov["traces_validated_against_impl"] += res["runs"]
     run.cov["evaluations"] += res["runs"] + res["b1_compared"]
